@@ -13,8 +13,48 @@ ASSUMPTIONS = [
 ]
 
 
+def chinook_phase(run):
+    """Ground truth that is not the reference model: upstream's integration queries over the chinook data
+    with the result snapshots recorded upstream.  SQL for sql.sqlite, executed on the pinned SQLite."""
+    from .. import chinook
+    w = core.Worker()
+    try:
+        w.db_open("ch", chinook.load_statements())
+        n = ok = rejected = 0
+        for name, prql, expected in chinook.cases():
+            n += 1
+            r = w.call({"op": "compile", "src": prql, "target": "sql.sqlite", "db": "ch"})
+            if "sql" not in r:
+                rejected += 1
+                run.violations.append({"property": "C01", "symptom": "snapshot_query_not_compiled", "shape": "chinook/" + name,
+                                       "witness": {"chinook": name}, "detail": str(r.get("errors") or r.get("panic"))[:300]})
+                continue
+            ex = r.get("exec", {})
+            if "sqlite_error" in ex:
+                run.violations.append({"property": "C01", "symptom": "snapshot_sql_error", "shape": "chinook/" + name,
+                                       "witness": {"chinook": name}, "detail": ex["sqlite_error"][:300]})
+                continue
+            got = chinook.render(ex["rows"])
+            if chinook.same_text(got, expected):
+                ok += 1
+            else:
+                gl, el = got.split("\n"), expected.split("\n")
+                i = next((i for i, (a, b) in enumerate(zip(gl, el)) if a != b), min(len(gl), len(el)))
+                run.violations.append({"property": "C01", "symptom": "snapshot_diff", "shape": "chinook/" + name, "witness": {"chinook": name},
+                                       "detail": "%d rows vs %d recorded; first difference at row %d: %r vs recorded %r || sql: %s" % (
+                                           len(gl), len(el), i, gl[i] if i < len(gl) else None, el[i] if i < len(el) else None, r["sql"][:300])})
+        run.coverage["chinook_snapshot_queries"] = n
+        run.coverage["chinook_snapshot_matches"] = ok
+    finally:
+        w.close()
+
+
 def run(tier, seed):
-    return explore("C01", PROPS, [("core", 0.75), ("boundary_nowin", 1.5)], tier, seed, 900, 40000, ASSUMPTIONS)
+    r = explore("C01", PROPS, [("core", 0.75), ("boundary_nowin", 1.5)], tier, seed, 900, 40000, ASSUMPTIONS)
+    chinook_phase(r)
+    r.assumptions = list(r.assumptions) + [
+        "chinook phase: the %s upstream integration queries that run on SQLite must reproduce the result snapshots recorded upstream (text equal, floats up to 1e-9 relative); this also calibrates the harness's execution path against data that is not mine" % r.coverage.get("chinook_snapshot_queries", "?")]
+    return r
 
 
 def explore(prop, props, profiles, tier, seed, n_quick, n_thorough, assumptions, rule_extra=""):
@@ -59,4 +99,8 @@ def finish_cov(run, obs):
 
 
 def replay(case):
+    if "chinook" in case:
+        r = core.Run("C01", "replay", 0)
+        chinook_phase(r)
+        return [v for v in r.violations if v["witness"].get("chinook") == case["chinook"]]
     return relcheck.replay_case(case, PROPS)
